@@ -2,7 +2,7 @@
 (* tower-resilience-healthcheck (C18): per-resource threshold machine and selection.
    cfg = [n (resources 1..n), ft (failure threshold), sth (success threshold), strat ("first"|"rr"|"prefer")].
    A check round consumes one result per resource: "h" healthy, "d" degraded, "u" unhealthy,
-   "k" unknown, "s" slower than the check timeout (= failed). *)
+   "k" unknown, "s" slower than the check timeout (= failed), "x" hanging (= failed at the timeout). *)
 EXTENDS Integers, Sequences, FiniteSets, TLC
 CONSTANTS CfgSet, Results, MaxRes, MaxRounds
 VARIABLES cfg, status, cf, cs, rounds, lastElig, lastKind, cnt, ev
@@ -17,7 +17,7 @@ Init == (\E c \in CfgSet : InitWith(c)) /\ ev = [e |-> "init"]
 Reset(c) ==
   /\ cfg' = c /\ status' = [r \in Res |-> "unknown"] /\ cf' = [r \in Res |-> 0] /\ cs' = [r \in Res |-> 0]
   /\ rounds' = 0 /\ lastElig' = {} /\ lastKind' = "none" /\ cnt' = [r \in Res |-> 0] /\ ev' = [e |-> "reset"]
-Failed(x) == x \in {"u", "s"}
+Failed(x) == x \in {"u", "s", "x"}     \* "x": a check that hangs and is cut off by the check timeout
 NewCf(r, x) == IF Failed(x) THEN cf[r] + 1 ELSE IF x \in {"h", "d"} THEN 0 ELSE cf[r]
 NewCs(r, x) == IF x \in {"h", "d"} THEN cs[r] + 1 ELSE IF Failed(x) THEN 0 ELSE cs[r]
 \* unhealthy only after ft consecutive failed/timed-out checks; healthy only on a healthy check completing
